@@ -332,7 +332,7 @@ func (s *JavaFullListener) EnterAnnotation(ctx *parser.AnnotationContext) {
 		isOverrideMethod = false
 	}
 
-	if !hasEnterClass {
+	if !hasEnterClass && !common_listener.IsAnnotationArgument(ctx) {
 		annotation := common_listener.BuildAnnotation(ctx)
 		if currentType == "CreatorClass" {
 			currentCreatorNode.Annotations = append(currentCreatorNode.Annotations, annotation)
